@@ -250,6 +250,19 @@ func (f *Fetcher) loop() {
 					continue
 				}
 
+				// Drop expired announcements if fresher ones exist, so that a fresh
+				// announcement isn't forgotten together with an expired one
+				fresh := make([]announceData, 0, len(announces))
+				for _, a := range announces {
+					if time.Since(a.time) <= f.cfg.ForgetTimeout {
+						fresh = append(fresh, a)
+					}
+				}
+				if len(fresh) != 0 && len(fresh) != len(announces) {
+					announces = fresh
+					f.announces.Add(id, announces, uint(len(announces)))
+				}
+
 				oldest := announces[0] // first is the oldest
 				if time.Since(oldest.time) > f.cfg.ForgetTimeout {
 					// Forget too old announces
